@@ -106,10 +106,8 @@ Proof.
 Qed.
 
 Theorem C18_resize_refuted :
-  ((exists x r, init_x_pinned x = Some r /\ shape (snd r) <> shape x) /\
-   (exists x, init_x_pinned x = None)) /\
-  ((exists d nx r, size nx = d /\ new_x_pinned d nx = Some r /\ shape (snd r) <> shape nx) /\
-   (exists d nx, size nx = d /\ new_x_pinned d nx = None)).
+  (exists x r, init_x_pinned x = Some r /\ shape (snd r) <> shape x) /\
+  (exists d nx r, size nx = d /\ new_x_pinned d nx = Some r /\ shape (snd r) <> shape nx).
 Proof. exact (conj init_x_pinned_refuted new_x_pinned_refuted). Qed.
 
 (* non-vacuity *)
